@@ -8,7 +8,7 @@ from harness import pktutil as pu
 
 ID = "C19"
 REQUIRED_THEOREMS = ["rows_small", "rows_large", "rows_large_count", "rows_are_sublist", "index_valid", "index_out_of_range"]
-RULE = ("requests `rows <n>` and `index <n> <i>`: packet files of n = 0..25 packets (sequence count = 8186 + index, crossing 8191 -> 8192; other header fields varied) run through "
+RULE = ("requests `rows <n>` and `index <n> <i>`: packet files (plain names, names with brackets, spaces, in directories whose names form a closing markup tag) of n = 0..25 packets (sequence count = 8186 + index, crossing 8191 -> 8192; other header fields varied) run through "
         "`spp describe-packets` and `spp parse --packet i` (i = -1..n+1) with click's CliRunner in-process; rows are "
         "recovered from rich's table output; the live MAX_ROWS / HEAD_ROWS constants are compared with the model's; "
         "exhaustive over that range; non-trivial = n >= 1; distinct = distinct request line")
@@ -57,6 +57,9 @@ def generate(rng, tier):
     for n in range(0, 14 if tier == "quick" else 40):
         for i in range(-1, n + 2):
             yield f"index {n} {i}", "parse-index"
+    # well-framed packets that are shorter than the definition describes (a 64-bit float follows the header)
+    for n in (1, 3):
+        yield f"parseshort {n}", "parse-undecodable"
     # files that end part-way through a packet (or a header): the complete packets are listed, nothing else happens
     for n in (1, 2, 5, 10, 11, 12):
         for c in (1, 2, 6, 7, 8, 13):
@@ -76,7 +79,10 @@ def packet_file(n, d, cut=0):
     rng = random.Random(n)
     data = b"".join(pu.mk_packet(rng, 1, sc=BASE + i, apid=100 + (i % 3) * 700, sf=i % 4, ver=i % 8, typ=i % 2,
                                  shf=(i // 2) % 2) for i in range(n))
-    p = os.path.join(d, f"p{n}.bin")
+    # file names are part of "every packet file": brackets are markup to the console library the CLI prints with
+    name = [f"p{n}.bin", f"p[{n}].bin", os.path.join("d[", "x]", f"p{n}.bin"), f"[red]p{n}.bin", f"p {n} (1).bin"][n % 5]
+    p = os.path.join(d, name)
+    os.makedirs(os.path.dirname(p), exist_ok=True)
     with open(p, "wb") as f:
         f.write(data[:len(data) - cut])
     return p
@@ -89,6 +95,20 @@ def impl(line):
     if t[0] == "const":
         return f"ok {cli.MAX_ROWS} {cli.HEAD_ROWS}"
     n = int(t[1])
+    if t[0] == "parseshort":
+        runner = CliRunner()
+        with tempfile.TemporaryDirectory() as d:
+            pf = packet_file(n, d)
+            xf = os.path.join(d, "def.xml")
+            with open(xf, "w") as f:
+                f.write(xtce_text().replace('<xtce:IntegerParameterType name="BODY_T"><xtce:IntegerDataEncoding sizeInBits="8" '
+                                            'encoding="unsigned"/></xtce:IntegerParameterType>',
+                                            '<xtce:FloatParameterType name="BODY_T"><xtce:FloatDataEncoding sizeInBits="64"/>'
+                                            '</xtce:FloatParameterType>'))
+            res = runner.invoke(cli.spp, ["-q", "parse", pf, xf], terminal_width=200)
+            if res.exception is not None and not isinstance(res.exception, SystemExit):
+                return f"err traceback !{type(res.exception).__name__}"
+            return "no-traceback"
     cut = 0
     if t[0] in ("rowscut", "indexcut"):
         cut = int(t[2])
@@ -132,6 +152,13 @@ def impl(line):
         if len(m) == 1:
             return f"shown {int(m[0]) - BASE}"
         return f"err unparsed-output:{len(m)}"
+
+
+def _parse_undecodable(line, mo, io):
+    return line.startswith("parseshort") and mo == "no-traceback" and io.startswith("err traceback")
+
+
+KNOWN_PREDICATES = {"parse_undecodable_traceback": _parse_undecodable}
 
 
 def in_domain(line):
